@@ -26,6 +26,8 @@ CHECKS = {
          "Not decided: numbers; disjointness across alignment regions (C01); that rustc rejects the violating conversions is exercised by C04's witnesses."),
  "C19": ("Ownership protocol of the pool, which discharges the schedule quantifier statically: idle stack only behind the mutex and no stray unsafe (R1); pop -> guard(ManuallyDrop, no Clone) -> take in Drop -> push, guard constructed only in the get family (R2); constructor calls only after pop() returned None (R3); pool-wide reset forwards (R5). Lifetime / Send / Sync clauses are decided by rustc on the witness corpus (R4, with C04).",
          "Not decided: fairness and timing; 'number of arenas never exceeds the peak' as a number (follows from R2+R3, not computed)."),
+ "C06": ("Shape rules behind exactly-once dropping: length store dominates every in-place slice drop (R1); critical sections discovered over the call graph (raw operation followed by user code, directly or through helpers/closures): tabled instances must drop their guard on the unwind path of the callback, safe-order instances tabled with reason, new ones reported UNCLASSIFIED (R2); ExtractIf index update between predicate and read (R2b); append hand-over order reserve -> copy -> take_owned_slice (R3); owners' Drop reaches drop_in_place on their buffer (R4).",
+         "Not decided: exact drop counts over histories; leaks the statement allows; panics thrown by Drop itself; iterator adaptors' internal protocols beyond the tabled ones."),
  "C07": ("The panicking error behaviour is uninhabited and its constructors diverge (R1); binding-aware call-graph proof that no try_* function and no allocator-interface method reaches the allocation-failure panic set or binds an ErrorBehavior parameter to Infallible (R2); failed chunk creation links nothing (R3); reserve-before-write in every single-operation E-generic collection method (R4); checked size computations with error-constructing failure edges, never unwrapped (R5).",
          "Not decided: the post-failure values (previous length and contents) beyond what the ordering implies; multi-step iterator-driven operations; leaks/double drops after failure (see C06)."),
  "C10": ("Every written position value is min-aligned by construction and the aligner helpers have their canonical form (R1, R1c); accounting identities allocated+remaining=capacity, size-capacity=header size and the Stats/AnyStats sum shapes (R2, affine value numbering); typed == type-erased accessors as affine normal forms (R3) and no size-dependent arithmetic on the erased header (R3b); chunk list link protocol (R4); recorded chunk size = aligned granted size (R5).",
